@@ -18,6 +18,7 @@ func init() {
 		Units: []Unit{
 			lexUnit([]string{"lexer/c03.go"},
 				Harness{Fn: "ZZC03Lexer", Quick: p("N", 2), Thorough: p("N", 3), ThoroughBudget: 10 * time.Minute, Expect: []string{"eof", "illegal", "ident", "string", "witness:end"}},
+				Harness{Fn: "ZZC03LexSeq", Quick: p("M", 4), Thorough: p("M", 5, "A", 13), ThoroughBudget: 20 * time.Minute, Expect: []string{"eof", "illegal", "ident", "string", "witness:end"}},
 			),
 			parserUnit([]string{"parser/c03p.go"},
 				Harness{Fn: "ZZC03Parser", Quick: p("E", 1, "INS", 26), Thorough: p("E", 2, "INS", 41), ThoroughBudget: 20 * time.Minute, Expect: []string{"accepted", "rejected", "witness:end"}},
